@@ -149,6 +149,8 @@ def obligations(ctx, tier):
         for A in ADTS:
             T = T_(A)
             out += div_rows(K, A)
+            from . import c18
+            out += c18.trait_value_rows(K, A, PROP, stems={"div", "rem", "div_euclid", "rem_euclid"})   # num-traits entry points
             # P+: panic classes reachable in both build modes
             for fid in (tr(A, OPS + "Div", [T], "div"), tr(A, OPS + "Rem", [T], "rem"), inh(A, "div"), inh(A, "rem")):
                 out.append(core.p_plus(K, PROP, fid, "zero_divisor"))
